@@ -37,7 +37,8 @@ func runW3(s *core.Shard, next func(string) bool) {
 		"indirect": "x-a: &a {b: &b {c: *a}}\nservices: {s: {image: i}}\n",
 		"service":  "services:\n  s: &s\n    image: i\n    labels: {l: *s}\n",
 	}
-	for name, doc := range selfRefs {
+	for _, name := range []string{"indirect", "map", "merge", "seq", "service"} { // fixed order: shards split the case list by position
+		doc := selfRefs[name]
 		one("alias-self/"+name, single(doc), expect{MustFail: true, Why: "self-referential YAML alias (" + name + ")"})
 	}
 	for _, depth := range []int{1, 2, 4, 8, 10, 12, 14, 16, 18, 20} {
@@ -48,6 +49,30 @@ func runW3(s *core.Shard, next func(string) bool) {
 		}
 		sb.WriteString("services: {s: {image: i}}\n")
 		one(fmt.Sprintf("alias-ladder/%02d", depth), single(sb.String()), expect{Why: "alias fan-out ladder"})
+	}
+	// the same amplification through the forms an alias can take: plain mapping value, single-form
+	// merge key, list-form merge key, sequence of mappings
+	forms := map[string]func(i, prev int) string{
+		"map-value":   func(i, prev int) string { return fmt.Sprintf("  k%d: *l%d\n", i, prev) },
+		"merge-key":   func(i, prev int) string { return fmt.Sprintf("  k%d: {<<: *l%d}\n", i, prev) },
+		"merge-list":  func(i, prev int) string { return fmt.Sprintf("  k%d: {<<: [*l%d]}\n", i, prev) },
+		"nested-seq":  func(i, prev int) string { return fmt.Sprintf("  k%d: [*l%d, {<<: *l%d}]\n", i, prev, prev) },
+		"merge-extra": func(i, prev int) string { return fmt.Sprintf("  k%d: {<<: *l%d, own%d: v}\n", i, prev, i) },
+	}
+	for _, name := range []string{"map-value", "merge-extra", "merge-key", "merge-list", "nested-seq"} {
+		form := forms[name]
+		for _, sh := range [][2]int{{3, 4}, {12, 10}, {24, 6}} {
+			var sb strings.Builder
+			sb.WriteString("x-l0: &l0 {a: \"1\", b: \"2\", c: \"3\", d: \"4\", e: \"5\"}\n")
+			for l := 1; l <= sh[0]; l++ {
+				fmt.Fprintf(&sb, "x-l%d: &l%d\n", l, l)
+				for i := 0; i < sh[1]; i++ {
+					sb.WriteString(form(i, l-1))
+				}
+			}
+			sb.WriteString("services: {s: {image: i}}\n")
+			one(fmt.Sprintf("alias-amplification/%s/%dx%d", name, sh[0], sh[1]), single(sb.String()), expect{Why: "alias amplification (" + name + ")"})
+		}
 	}
 	for _, depth := range []int{5, 50, 500} {
 		var sb strings.Builder
